@@ -4,6 +4,10 @@ usage: python c05_run.py ROOT MODE CONF_JSON
   ROOT  scratch directory holding the package tree (pk/__init__.py, pk/m.py, stub packages)
   MODE  plain  -> `import pk.m` with no hook (also used for the hand-decorated source)
         hook   -> `beartype_package('pk', conf=BeartypeConf(**CONF))` first
+        rehook -> the module is FIRST imported inside `with beartyping(conf=DECOY)` (same AST-shaping options,
+                  violations downgraded to warnings), its output discarded and the module dropped from sys.modules;
+                  THEN it is imported inside `with beartyping(conf=BeartypeConf(**CONF))` and observed: a second import
+                  under another hook must behave like a first import under that hook
 Prints one JSON line: stdout lines, exception class and the line numbers of the pk/m.py frames of its
 traceback, warnings (category, head of the message), canonicalised final globals, reached / missed marks.
 beartype is imported from $PYTHONPATH (the harness puts $VERIF_REPO first).
@@ -49,7 +53,36 @@ def main():
     res = {'mode': mode}
     out = io.StringIO()
     mod = None
-    with warnings.catch_warnings(record=True) as wlist:
+    ctx = contextlib.nullcontext()
+    if mode == 'rehook':
+        from beartype import BeartypeConf, BeartypeDecorPlace
+        from beartype.claw import beartyping
+        kw = json.loads(conf_json)
+        for k in ('claw_decor_place_func', 'claw_decor_place_type'):
+            if k in kw:
+                kw[k] = BeartypeDecorPlace[kw[k]]
+
+        class _C05DecoyWarning(UserWarning):
+            pass
+        decoy = dict(kw, violation_type=_C05DecoyWarning, is_pep484_tower=not kw.get('is_pep484_tower', False))
+        with warnings.catch_warnings():
+            warnings.simplefilter('ignore')
+            with beartyping(conf=BeartypeConf(**decoy)), contextlib.redirect_stdout(io.StringIO()):
+                try:
+                    import pk.m  # noqa
+                except BaseException:  # noqa
+                    pass
+        for name in [n for n in sys.modules if n == 'pk' or n.startswith('pk.')]:
+            del sys.modules[name]
+        for a in ('_c05_reached', '_c05_missed'):
+            if hasattr(builtins, a):
+                getattr(builtins, a).clear()
+        for a in [a for a in vars(builtins) if a.startswith('_c05_') and a not in ('_c05_reached', '_c05_missed')]:
+            v = getattr(builtins, a)
+            if isinstance(v, (list, dict, set)):
+                v.clear()
+        ctx = beartyping(conf=BeartypeConf(**kw))
+    with warnings.catch_warnings(record=True) as wlist, ctx:
         warnings.simplefilter('always')
         try:
             if mode == 'hook':
